@@ -75,3 +75,64 @@ Proof.
   { unfold sowns in Ho2'. eapply Permutation_trans; [exact Ho2'|]. apply Permutation_app_swap_app. }
   split; [exact Hh1|]. split; [exact Hh2|]. split; [congruence|]. auto 10.
 Qed.
+
+(** * zip add *)
+Lemma siter_add_parts s D x d Added rest a F v id a1 :
+  srep s (D ++ (x, d) :: Added ++ rest) -> slown a s (D ++ (x, d) :: Added ++ rest) F ->
+  alloc (sl_mem s) SNODE_BYTES a = (Some id, a1) ->
+  exists nc h, sload (sl_heap s) x = Ok nc /\
+    sset_next (shset (sl_heap s) id {| sn_data := v; sn_next := sn_next nc |}) x id = Ok h /\
+    let s' := supd s (sl_size s + 1) (sl_head s) (if sn_next nc =? 0 then id else sl_tail s) h in
+    srep s' (D ++ (x, d) :: (id, v) :: Added ++ rest) /\ slown a1 s' (D ++ (x, d) :: (id, v) :: Added ++ rest) F /\
+    ssame_hdr s s'.
+Proof.
+  intros R Ho Ea.
+  pose (it := {| si_index := lenN (D ++ (x, d) :: Added); si_next := first_id rest 0; si_current := x; si_prev := last_id D 0 |}).
+  assert (Hp : sit_pos it (D ++ (x, d) :: Added) rest).
+  { constructor; try reflexivity. right. exists D, d, Added. split; reflexivity. }
+  pose proof (siter_add_spec s it D x d Added rest a F v R Ho Hp eq_refl) as S. rewrite Ea in S.
+  destruct S as (s' & it' & E & R' & Ho' & _ & _ & _ & Hh & _).
+  unfold siter_add in E. rewrite Ea in E. cbn [si_current it] in E.
+  destruct (sload (sl_heap s) x) as [nc|] eqn:EL; [|discriminate]. cbn [bind] in E.
+  destruct (sset_next (shset (sl_heap s) id {| sn_data := v; sn_next := sn_next nc |}) x id) as [h|] eqn:ES; [|discriminate].
+  cbn [bind] in E. inversion E; subst. exists nc, h. cbv zeta. auto.
+Qed.
+
+(** zip add after a yield of the pair at nodes [x1], [x2]: each list receives its element in a fresh node of its
+    own allocator family directly behind the yielded node; if either node is refused nothing at all has changed. *)
+Theorem szip_add_spec s1 s2 z D1 x1 d1 A1 rest1 D2 x2 d2 A2 rest2 a F e1 e2 :
+  srep s1 (D1 ++ (x1, d1) :: A1 ++ rest1) -> srep s2 (D2 ++ (x2, d2) :: A2 ++ rest2) -> lok a ->
+  Permutation (live a) (sblocks s1 (D1 ++ (x1, d1) :: A1 ++ rest1) ++ sblocks s2 (D2 ++ (x2, d2) :: A2 ++ rest2) ++ F) ->
+  sz1_current z = x1 -> sz2_current z = x2 ->
+  exists st s1' s2' z' a', szip_add s1 s2 z e1 e2 a = Ok (st, s1', s2', z', a') /\
+    ((st = CC_OK /\ exists id1 id2,
+        srep s1' (D1 ++ (x1, d1) :: (id1, e1) :: A1 ++ rest1) /\
+        srep s2' (D2 ++ (x2, d2) :: (id2, e2) :: A2 ++ rest2) /\ lok a' /\
+        Permutation (live a') (sblocks s1' (D1 ++ (x1, d1) :: (id1, e1) :: A1 ++ rest1) ++
+                               sblocks s2' (D2 ++ (x2, d2) :: (id2, e2) :: A2 ++ rest2) ++ F) /\
+        ssame_hdr s1 s1' /\ ssame_hdr s2 s2' /\
+        sz_index z' = sz_index z + 1 /\ sz1_current z' = x1 /\ sz2_current z' = x2 /\
+        sz1_next z' = sz1_next z /\ sz2_next z' = sz2_next z /\ sz1_prev z' = sz1_prev z /\ sz2_prev z' = sz2_prev z) \/
+     (st = CC_ERR_ALLOC /\ s1' = s1 /\ s2' = s2 /\ z' = z /\ live a' = live a)).
+Proof.
+  intros R1 R2 Hk Hp H1 H2. unfold szip_add. rewrite H1, H2.
+  destruct (alloc (sl_mem s1) SNODE_BYTES a) as [[id1|] a1] eqn:E1.
+  2:{ destruct (alloc_none _ _ _ _ E1 Hk) as (Hl1 & _). do 5 eexists. split; [reflexivity|]. right. auto. }
+  destruct (alloc_some _ _ _ _ _ E1 Hk) as (Hid1 & Hl1 & Hk1 & _).
+  destruct (alloc (sl_mem s2) SNODE_BYTES a1) as [[id2|] a2] eqn:E2.
+  2:{ destruct (alloc_none _ _ _ _ E2 Hk1) as (Hl2 & _). rewrite Hl1 in Hl2.
+      destruct (release_head _ _ _ _ _ Hl2) as (a3 & -> & Hl3 & _). cbn [bind].
+      do 5 eexists. split; [reflexivity|]. right. auto. }
+  destruct (siter_add_parts s1 D1 x1 d1 A1 rest1 a _ e1 id1 a1 R1 (conj Hk Hp) E1) as (c1 & h1 & L1 & S1 & R1' & [Hk1' Ho1] & Hh1).
+  assert (Ho2 : sowns a1 s2 (D2 ++ (x2, d2) :: A2 ++ rest2)
+                  (sblocks (supd s1 (sl_size s1 + 1) (sl_head s1) (if sn_next c1 =? 0 then id1 else sl_tail s1) h1)
+                           (D1 ++ (x1, d1) :: (id1, e1) :: A1 ++ rest1) ++ F)).
+  { unfold sowns in *. eapply Permutation_trans; [exact Ho1|]. apply Permutation_app_swap_app. }
+  destruct (siter_add_parts s2 D2 x2 d2 A2 rest2 a1 _ e2 id2 a2 R2 (conj Hk1 Ho2) E2) as (c2 & h2 & L2 & S2 & R2' & [Hk2' Ho2'] & Hh2).
+  rewrite L1. cbn [bind]. rewrite L2. cbn [bind]. rewrite S1. cbn [bind]. rewrite S2. cbn [bind].
+  do 5 eexists. split; [reflexivity|]. left. split; [reflexivity|]. exists id1, id2.
+  cbn [sz_index sz1_current sz2_current sz1_next sz2_next sz1_prev sz2_prev].
+  split; [exact R1'|]. split; [exact R2'|]. split; [exact Hk2'|]. split.
+  { unfold sowns in Ho2'. eapply Permutation_trans; [exact Ho2'|]. apply Permutation_app_swap_app. }
+  split; [exact Hh1|]. split; [exact Hh2|]. auto 12.
+Qed.
